@@ -42,12 +42,34 @@ package main
 //   - element stores into a string and appending stores (`$X[len] = e`): the
 //     container is rebuilt and re-bound, so the hole must be assignable;
 //   - field stores into struct VALUES (a struct inside interface{} is a
-//     non-addressable copy in Go itself): pointer-to-struct operands only.
+//     non-addressable copy in Go itself): pointer-to-struct operands only;
+//     likewise a pointer-receiver method or an element store on a struct / array
+//     VALUE when the hole itself is an addressable typed location (ts[0].Inc());
+//   - stores through a hole that is a TYPED place (element of a []T, field typed T)
+//     unless the stored value has type T: the place converts what it receives (C10);
+//   - the loop variable of for-in is not one of the statement's hops; it is used as a
+//     binding hop in phase typed for non-pointer operands only (for-in hands out
+//     what a pointer element points to - the same for every provenance of the list).
+//
+// Operand kinds beyond the script's own: named types of basic kinds with methods
+// (string, int64, float64, bool), values implementing non-empty interfaces (error
+// with a pointer receiver, fmt.Stringer as a struct value, io.Reader), a Go array.
+// Typed ADDRESSABLE provenances for every kind (Go helpers build a []T, a
+// *struct{F T}, a *T, a map[string]T around the operand by reflection): the value
+// read from such a location and then bound to a name / parameter / result must
+// still be the same value of the same dynamic type (phase typed: every typed
+// location x every binding hop), and must be a VALUE (the live-* templates: it
+// does not follow a later store into the location).
+//
+// c20PendingFix_* constants: input classes on which the unchanged tree violates the
+// statement (C20-genuine.md); they are generated only when the constant is false.
 
 import (
 	"context"
 	"errors"
 	"fmt"
+	"io"
+	"io/ioutil"
 	"reflect"
 	"regexp"
 	"sort"
@@ -77,6 +99,120 @@ func (s c20S) Get() int64  { return s.A }
 func (s *c20S) Inc() int64 { s.A++; return s.A }
 
 type c20Box struct{ V interface{} }
+
+// named types of basic kinds with methods: the dynamic type (and with it the
+// method set) is all that tells them from a plain string / int64 / float64 / bool
+type c20Color string
+
+func (c c20Color) Hex() string {
+	switch c {
+	case "red":
+		return "#ff0000"
+	case "blue":
+		return "#0000ff"
+	}
+	return "#000000"
+}
+func (c c20Color) String() string { return "Color(" + string(c) + ")" }
+
+type c20Dur int64
+
+func (d c20Dur) Double() c20Dur { return d * 2 }
+func (d c20Dur) String() string { return fmt.Sprintf("%dticks", int64(d)) }
+
+type c20Temp float64
+
+func (t c20Temp) Kelvin() float64 { return float64(t) + 273 }
+
+type c20Flag bool
+
+func (f c20Flag) Word() string {
+	if f {
+		return "on"
+	}
+	return "off"
+}
+
+// values implementing non-empty interfaces (error, fmt.Stringer, io.Reader)
+type c20Err struct{ Msg string }
+
+func (e *c20Err) Error() string { return "c20Err:" + e.Msg }
+
+type c20Named struct{ N string }
+
+func (n c20Named) String() string { return "Named(" + n.N + ")" }
+
+type c20Rd struct {
+	Data string
+	Pos  int
+}
+
+func (r *c20Rd) Read(p []byte) (int, error) {
+	if r.Pos >= len(r.Data) {
+		return 0, io.EOF
+	}
+	n := copy(p, r.Data[r.Pos:])
+	r.Pos += n
+	return n, nil
+}
+
+type c20Hexer interface{ Hex() string }
+
+// c20H has fields of non-empty interface types and of named basic types
+type c20H struct {
+	Err error
+	S   fmt.Stringer
+	C   c20Color
+	D   c20Dur
+}
+
+var c20IfaceType = reflect.TypeOf((*interface{})(nil)).Elem()
+
+// c20DynType is the dynamic type of x (interface{} for nil)
+func c20DynType(x interface{}) reflect.Type {
+	if x == nil {
+		return c20IfaceType
+	}
+	return reflect.TypeOf(x)
+}
+
+// typed, addressable Go locations holding x with exactly its dynamic type: an
+// element of a []T, the field F of a *struct{F T}, the target of a *T, and an
+// entry of a map[string]T (not addressable, but typed)
+func c20TypedSlice(x interface{}) interface{} {
+	s := reflect.MakeSlice(reflect.SliceOf(c20DynType(x)), 1, 1)
+	if x != nil {
+		s.Index(0).Set(reflect.ValueOf(x))
+	}
+	return s.Interface()
+}
+
+func c20TypedField(x interface{}) interface{} {
+	p := reflect.New(reflect.StructOf([]reflect.StructField{{Name: "F", Type: c20DynType(x)}}))
+	if x != nil {
+		p.Elem().Field(0).Set(reflect.ValueOf(x))
+	}
+	return p.Interface()
+}
+
+func c20TypedCell(x interface{}) interface{} {
+	p := reflect.New(c20DynType(x))
+	if x != nil {
+		p.Elem().Set(reflect.ValueOf(x))
+	}
+	return p.Interface()
+}
+
+func c20TypedMap(x interface{}) interface{} {
+	t := c20DynType(x)
+	m := reflect.MakeMap(reflect.MapOf(reflect.TypeOf(""), t))
+	if x != nil {
+		m.SetMapIndex(reflect.ValueOf("k"), reflect.ValueOf(x))
+	} else {
+		m.SetMapIndex(reflect.ValueOf("k"), reflect.Zero(t))
+	}
+	return m.Interface()
+}
 
 type c20State struct {
 	env  *env.Env
@@ -152,6 +288,73 @@ func c20NewState() *c20State {
 	e.Define("pi", pi)
 	e.Define("ch", make(chan interface{}, 2))
 	e.Define("ci", make(chan int64, 2))
+
+	// callees whose parameters have NON-EMPTY interface types or named basic types,
+	// and one that looks at the dynamic type's method set through fmt
+	e.Define("gerr", func(x error) string {
+		if x == nil {
+			return "<nil error>"
+		}
+		return fmt.Sprintf("%T:", x) + x.Error()
+	})
+	e.Define("gstringer", func(x fmt.Stringer) string {
+		if x == nil {
+			return "<nil Stringer>"
+		}
+		return fmt.Sprintf("%T:", x) + x.String()
+	})
+	e.Define("grd", func(r io.Reader) string {
+		if r == nil {
+			return "<nil Reader>"
+		}
+		b, err := ioutil.ReadAll(r)
+		return fmt.Sprintf("%T:%q:%v", r, b, err)
+	})
+	e.Define("ghex", func(x c20Hexer) string {
+		if x == nil {
+			return "<nil Hexer>"
+		}
+		return fmt.Sprintf("%T:", x) + x.Hex()
+	})
+	e.Define("gerrs", func(xs ...error) string {
+		var parts []string
+		for _, x := range xs {
+			if x == nil {
+				parts = append(parts, "<nil>")
+			} else {
+				parts = append(parts, fmt.Sprintf("%T:", x)+x.Error())
+			}
+		}
+		return strings.Join(parts, ",")
+	})
+	e.Define("gperr", func(x *c20Err) string {
+		if x == nil {
+			return "<nil *c20Err>"
+		}
+		return x.Msg
+	})
+	e.Define("gcolor", func(c c20Color) string { return "color:" + c.Hex() })
+	e.Define("gdur", func(d c20Dur) c20Dur { return d + 1 })
+	e.Define("gtemp", func(t c20Temp) float64 { return t.Kelvin() })
+	e.Define("gflag", func(f c20Flag) string { return f.Word() })
+	e.Define("gshow", func(x interface{}) string { return fmt.Sprintf("%T|%v", x, x) })
+	e.Define("gset", func(p *int64) {
+		if p != nil {
+			*p = 77
+		}
+	})
+	e.DefineReflectType("error", reflect.TypeOf((*error)(nil)).Elem())
+	e.DefineReflectType("Stringer", reflect.TypeOf((*fmt.Stringer)(nil)).Elem())
+	e.DefineReflectType("Reader", reflect.TypeOf((*io.Reader)(nil)).Elem())
+	e.DefineType("Color", c20Color(""))
+	e.DefineType("Dur", c20Dur(0))
+	e.Define("ph", &c20H{})
+	e.Define("ce", make(chan error, 2))
+	// typed locations for the provenance atoms
+	e.Define("tsl", c20TypedSlice)
+	e.Define("pfl", c20TypedField)
+	e.Define("pto", c20TypedCell)
+	e.Define("tmp", c20TypedMap)
 	return st
 }
 
@@ -214,6 +417,17 @@ func c20MakeVals() []c20Val {
 		c20Go("i32", func() interface{} { return int32(2) }),
 		c20Go("f32", func() interface{} { return float32(1.5) }),
 		c20Go("u8", func() interface{} { return uint8(3) }),
+		// named types of basic kinds with methods
+		c20Go("ncolor", func() interface{} { return c20Color("red") }),
+		c20Go("ndur", func() interface{} { return c20Dur(2) }),
+		c20Go("ntemp", func() interface{} { return c20Temp(2.5) }),
+		c20Go("nflag", func() interface{} { return c20Flag(true) }),
+		// values implementing non-empty interfaces: error (pointer receiver), fmt.Stringer (struct value), io.Reader
+		c20Go("errp", func() interface{} { return &c20Err{Msg: "boom"} }),
+		c20Go("stringer", func() interface{} { return c20Named{N: "n"} }),
+		c20Go("reader", func() interface{} { return &c20Rd{Data: "abc"} }),
+		c20Go("errlist", func() interface{} { return []interface{}{&c20Err{Msg: "e1"}, &c20Err{Msg: "e2"}} }),
+		c20Go("array", func() interface{} { return [3]int64{1, 2, 3} }),
 	}
 	// Go functions need the state for their log
 	vs = append(vs,
@@ -248,10 +462,26 @@ type c20Atom struct {
 	noChan     bool            // `c <- e` with a channel e forwards an item instead of transporting e
 	only       map[string]bool // operand kinds the atom can carry (typed containers)
 	assignable bool
+	isName     bool // the hole is a plain variable name
+	typedPlace bool // an assignable hole whose storage has the operand's static type (a store converts to it)
+	typedOnly  bool // used by phase typed only (a binding hop meant to follow a typed location)
+	noPtr      bool // not with a pointer operand
 	apply      func(h c20Hole, n string) c20Hole
 }
 
 func c20MakeAtoms() []c20Atom {
+	all := c20AllAtoms()
+	var atoms []c20Atom
+	for _, a := range all {
+		if c20PendingFix_nonEmptyIfaceBox && (a.name == "terrelem" || a.name == "tstringerelem" || a.name == "treaderelem") {
+			continue
+		}
+		atoms = append(atoms, a)
+	}
+	return atoms
+}
+
+func c20AllAtoms() []c20Atom {
 	expr := func(boxed int, item bool, f func(e string) string) func(h c20Hole, n string) c20Hole {
 		return func(h c20Hole, n string) c20Hole {
 			b := h.boxed
@@ -283,7 +513,10 @@ func c20MakeAtoms() []c20Atom {
 		{name: "gomulti", apply: expr(1, true, func(e string) string { return "id2(" + e + ")[0]" })},
 		{name: "telem", only: map[string]bool{"int": true, "zero": true, "big": true, "huge": true},
 			apply: expr(0, true, func(e string) string { return "[]int64{" + e + "}[0]" })},
-		{name: "paren", apply: expr(-1, false, func(e string) string { return "(" + e + ")" })},
+		{name: "paren", apply: func(h c20Hole, n string) c20Hole {
+			// `a, b = (m[k])` is the comma-ok statement as well: the parser looks through parentheses
+			return c20Hole{pre: h.pre, expr: "(" + h.expr + ")", itemSyntax: h.itemSyntax, boxed: h.boxed}
+		}},
 		{name: "ternary", apply: expr(-1, false, func(e string) string { return "(true ? " + e + " : 0)" })},
 		{name: "coalesce", nonNilOnly: true, apply: expr(-1, false, func(e string) string { return "(" + e + " ?? 0)" })},
 		{name: "elemvar", assignable: true, apply: place(1, true,
@@ -298,24 +531,24 @@ func c20MakeAtoms() []c20Atom {
 		{name: "fieldvar", assignable: true, apply: place(1, false,
 			func(e, n string) []string { return []string{"b" + n + " = pbox(" + e + ")"} },
 			func(n string) string { return "b" + n + ".V" })},
-		{name: "letvar", assignable: true, apply: place(0, false,
+		{name: "letvar", assignable: true, isName: true, apply: place(0, false,
 			func(e, n string) []string { return []string{"x" + n + " = " + e} },
 			func(n string) string { return "x" + n })},
-		{name: "varvar", assignable: true, apply: place(-1, false,
+		{name: "varvar", assignable: true, isName: true, apply: place(-1, false,
 			func(e, n string) []string { return []string{"var x" + n + " = " + e} },
 			func(n string) string { return "x" + n })},
 		{name: "modvar", assignable: true, apply: place(0, false,
 			func(e, n string) []string { return []string{"module M" + n + " { x = " + e + " }"} },
 			func(n string) string { return "M" + n + ".x" })},
-		{name: "tstrelemvar", assignable: true, only: map[string]bool{"str": true, "strnum": true}, apply: place(0, true,
+		{name: "tstrelemvar", assignable: true, typedPlace: true, only: map[string]bool{"str": true, "strnum": true}, apply: place(0, true,
 			func(e, n string) []string { return []string{"ts" + n + " = []string{" + e + "}"} },
 			func(n string) string { return "ts" + n + "[0]" })},
-		{name: "strfieldvar", assignable: true, only: map[string]bool{"str": true, "strnum": true}, apply: place(0, false,
+		{name: "strfieldvar", assignable: true, typedPlace: true, only: map[string]bool{"str": true, "strnum": true}, apply: place(0, false,
 			func(e, n string) []string {
 				return []string{"sf" + n + " = make(struct{S string})", "sf" + n + ".S = " + e}
 			},
 			func(n string) string { return "sf" + n + ".S" })},
-		{name: "letfromtstr", assignable: true, only: map[string]bool{"str": true, "strnum": true}, apply: place(0, false,
+		{name: "letfromtstr", assignable: true, isName: true, only: map[string]bool{"str": true, "strnum": true}, apply: place(0, false,
 			func(e, n string) []string {
 				return []string{"tq" + n + " = []string{" + e + "}", "xq" + n + " = tq" + n + "[0]"}
 			},
@@ -324,24 +557,86 @@ func c20MakeAtoms() []c20Atom {
 			p := append(append([]string{}, h.pre...), "c"+n+" = make(chan interface, 1)", "c"+n+" <- "+h.expr)
 			return c20Hole{pre: p, expr: "(<-c" + n + ")", boxed: true}
 		}},
+		// typed Go locations holding the operand with exactly its dynamic type, for EVERY
+		// operand kind (Go helpers build them by reflection): element of a []T, field of a
+		// *struct{F T}, target of a *T (all three addressable), entry of a map[string]T
+		{name: "tyelem", apply: expr(0, true, func(e string) string { return "tsl(" + e + ")[0]" })},
+		{name: "tyfield", apply: expr(0, false, func(e string) string { return "pfl(" + e + ").F" })},
+		{name: "tyderef", apply: expr(0, false, func(e string) string { return "(*pto(" + e + "))" })},
+		{name: "tymapent", apply: expr(0, true, func(e string) string { return "tmp(" + e + `)["k"]` })},
+		{name: "tyelemvar", assignable: true, typedPlace: true, apply: place(0, true,
+			func(e, n string) []string { return []string{"ty" + n + " = tsl(" + e + ")"} },
+			func(n string) string { return "ty" + n + "[0]" })},
+		// element of a typed slice whose element type is a NON-EMPTY interface the operand implements:
+		// the element is boxed in `error` / `Stringer` / `Reader`, not in interface{}
+		{name: "terrelem", only: map[string]bool{"errp": true},
+			apply: expr(1, true, func(e string) string { return "[]error{" + e + "}[0]" })},
+		{name: "tstringerelem", only: map[string]bool{"stringer": true, "ncolor": true, "ndur": true},
+			apply: expr(1, true, func(e string) string { return "[]Stringer{" + e + "}[0]" })},
+		{name: "treaderelem", only: map[string]bool{"reader": true},
+			apply: expr(1, true, func(e string) string { return "[]Reader{" + e + "}[0]" })},
+		// more binding hops: multi-assignment, the 5+ parameter path, a name returned, a closure
+		{name: "mletvar", typedOnly: true, assignable: true, isName: true, apply: place(0, false,
+			func(e, n string) []string { return []string{"u" + n + ", x" + n + " = 1, " + e} },
+			func(n string) string { return "x" + n })},
+		{name: "sparam5", typedOnly: true, apply: expr(-1, false, func(e string) string { return "func(a, b, c, d, p){ return p }(1, 2, 3, 4, " + e + ")" })},
+		{name: "retname", typedOnly: true, apply: expr(-1, false, func(e string) string { return "func(){ q = " + e + "; return q }()" })},
+		{name: "closure", typedOnly: true, apply: expr(-1, false, func(e string) string { return "func(p){ return func(){ return p } }(" + e + ")()" })},
+		// the loop variable of for-in (phase typed only, never with a pointer operand: the
+		// statement does not list the loop variable among the hops and for-in hands out
+		// what a pointer element points to; see C20-genuine.md, group 5)
+		{name: "forinvar", typedOnly: true, noPtr: true, assignable: true, isName: true, apply: place(0, false,
+			func(e, n string) []string {
+				return []string{"y" + n + " = nil", "for q" + n + " in [" + e + "] { y" + n + " = q" + n + " }"}
+			},
+			func(n string) string { return "y" + n })},
 	}
 }
+
+// ---------------------------------------------------------------------------
+// Input classes on which the UNCHANGED tree violates the statement (reproducers, the code
+// at fault and suggested fixes: /tmp/strengthen/C20-genuine.md). They are kept out of the
+// generated domain until /repo is repaired; flip a constant to false to check its class.
+const (
+	// group 1+8: a name bound from an addressable typed location gets an ADDRESSABLE cell (and a
+	// struct/array is not copied at all): `&name` aliases such a name only, a pointer-receiver
+	// method or an element store mutates such a name in place
+	c20PendingFix_addressableBinding = true
+	// group 2: the left operand of a binary operator / an earlier argument of a Go call read
+	// from a slot follows a store made while the right operand / a later argument is evaluated
+	c20PendingFix_liveOperand = true
+	// group 3: the implicit result of a function body (no return statement) read from a slot
+	// follows a deferred store
+	c20PendingFix_implicitResult = true
+	// group 4: slicing a Go array that is not addressable panics in the host
+	c20PendingFix_arraySlice = true
+	// group 5: switch and `in` compare a boxed pointer as a pointer, an unboxed one by its target
+	c20PendingFix_boxedPointerEqual = true
+	// group 6: a value boxed in a non-empty interface type (element of []error ...) is not unboxed
+	// by the converter
+	c20PendingFix_nonEmptyIfaceBox = true
+	// group 7: the write-back after f(&name) is decided by the syntax of the argument
+	c20PendingFix_addrWriteback = true
+)
 
 // ---------------------------------------------------------------------------
 // operation templates
 
 type c20Tmpl struct {
 	id                 string
-	pre                string // callee definitions etc., identical in every instantiation
-	src                string // the operation; its value is the result
-	follow             string // extra follow-up script (always run)
-	ykind              string // "" no second hole; "same": a fresh value of the same kind; else a kind name
-	effectOnly         bool   // the value of the statement is not compared (compound assignment)
-	needAssignable     bool   // only assignable holes
-	strNeedsAssignable bool   // for operands the store rebuilds and re-binds (strings; the empty list, where index 0 appends) only assignable holes
-	noItemSyntax       bool   // not with a hole that is syntactically an index expression
-	errMsg             bool   // the error text is the result (throw)
-	async              bool   // the effect arrives from another goroutine
+	pre                string          // callee definitions etc., identical in every instantiation
+	src                string          // the operation; its value is the result
+	follow             string          // extra follow-up script (always run)
+	ykind              string          // "" no second hole; "same": a fresh value of the same kind; else a kind name
+	effectOnly         bool            // the value of the statement is not compared (compound assignment)
+	needAssignable     bool            // only assignable holes
+	strNeedsAssignable bool            // for operands the store rebuilds and re-binds (strings; the empty list, where index 0 appends) only assignable holes
+	noItemSyntax       bool            // not with a hole that is syntactically an index expression
+	errMsg             bool            // the error text is the result (throw)
+	async              bool            // the effect arrives from another goroutine
+	nameOnly           bool            // only holes that are a plain variable name (possibly parenthesised)
+	typeSens           bool            // sensitive to the dynamic type / method set: instantiated in phase typed
+	kinds              map[string]bool // nil: every operand kind; else the kinds the position is about plus a few controls
 	skip               map[string]bool
 }
 
@@ -541,6 +836,134 @@ func c20MakeTmpls() []c20Tmpl {
 	T("core-toInt", "toInt($X)")
 	T("core-toBool", "toBool($X)")
 	T("core-range", "range($X)")
+
+	// --- positions that look at the dynamic type or the method set -------------------
+	// (instantiated with the operand kinds the position is about and a few controls of other
+	// kinds; the all-kind sweep of call arguments, literals and stores is done by the templates above)
+	K := func(kinds string, id, src string) {
+		add(c20Tmpl{id: id, src: src, kinds: skip(strings.Fields(kinds)...)})
+	}
+	// Go parameters of NON-EMPTY interface types, of named basic types, of a concrete pointer type
+	const errK = "errp errlist nil nilptr str int stringer pstruct"
+	const strgK = "stringer ncolor ndur errp reader nil str int struct"
+	const rdK = "reader errp nil str pstruct"
+	const colK = "ncolor str strnum int nil ndur stringer"
+	const durK = "ndur int float str nil ncolor i32 huge"
+	K(errK, "arg-go-error", "gerr($X)")
+	K(strgK, "arg-go-stringer", "gstringer($X)")
+	K(rdK, "arg-go-reader", "grd($X)")
+	K(colK, "arg-go-hexer", "ghex($X)")
+	K(errK, "arg-go-errvariadic", "gerrs($X)")
+	K(errK, "arg-go-errvariadic-2", "gerrs(nil, $X)")
+	K("errlist list elist nil tslice", "spread-go-errvariadic", "gerrs($X...)")
+	K(errK, "arg-go-perr", "gperr($X)")
+	K(colK, "arg-go-color", "gcolor($X)")
+	K(durK, "arg-go-dur", "gdur($X)")
+	K("ntemp float int ndur nil f32", "arg-go-temp", "gtemp($X)")
+	K("nflag true false nil int", "arg-go-flag", "gflag($X)")
+	T("arg-go-show", "gshow($X)")
+	T("arg-go-show-list", "gshow([$X])")
+	// typed literals whose element / value / key type is an interface or a named type
+	K(errK, "lit-tslice-error", "[]error{$X}")
+	K(strgK, "lit-tslice-stringer", "[]Stringer{$X}")
+	K(rdK, "lit-tslice-reader", "[]Reader{$X}")
+	K(errK, "lit-tmap-error", `map[string]error{"a": $X}`)
+	K(colK, "lit-tslice-color", "[]Color{$X}")
+	K(durK, "lit-tslice-dur", "[]Dur{$X}")
+	K(colK, "lit-tmap-colorkey", "map[Color]int64{$X: 1}")
+	// stores into places of such types
+	K(errK, "store-val-terr", "t = make([]error, 1)\nt[0] = $X\nt")
+	K(errK, "store-val-errfield", "ph.Err = $X\nph")
+	K(strgK, "store-val-stringerfield", "ph.S = $X\nph")
+	K(colK, "store-val-colorfield", "ph.C = $X\nph")
+	K(durK, "store-val-durfield", "ph.D = $X\nph")
+	K(errK, "chan-send-val-err", "ce <- $X\n<-ce")
+	// methods of the dynamic type
+	K(colK, "method-hex", "$X.Hex()")
+	K(strgK, "method-string", "$X.String()")
+	K(errK, "method-error", "$X.Error()")
+	K(durK, "method-double", "$X.Double()")
+	K("ntemp float int ndur nil f32", "method-kelvin", "$X.Kelvin()")
+	K("nflag true false nil int", "method-word", "$X.Word()")
+	K(colK, "method-value", "f = $X.Hex\nf()")
+	// a map key keeps its type: typed lookup afterwards
+	T("map-key-type", "m = {}\nm[$X] = 1\nr = []\nfor k, z in m { r += [typeOf(k)] }\nr")
+	K(colK, "index-key-tmap-color", "mc = map[Color]int64{\"red\": 5}\nmc[$X]")
+	T("index-key-tmap-str", "mc = map[string]int64{\"red\": 5, \"abc\": 6}\nmc[$X]")
+
+	// `in` and switch without a bool among the candidates (a bool candidate equals every truthy operand)
+	T("in-lhs-nobool", `$X in [1, 5, "abc", 2.5]`)
+	T("switch-subject-nobool", "r = \"none\"\nswitch ($X) {\ncase 1:\nr = \"one\"\ncase 5:\nr = \"five\"\ncase \"red\":\nr = \"red\"\ndefault:\nr = \"dflt\"\n}\nr")
+	T("switch-case-nobool", "r = \"none\"\nswitch 1 {\ncase $X:\nr = \"hit\"\ndefault:\nr = \"miss\"\n}\nr")
+
+	// an operand is a VALUE: once read it does not follow a later store into the place it was read from
+	// (the hole is read, then written by a call evaluated later in the same expression / after the body)
+	const bump = "func(){ $X += $X; return 0 }()"
+	add(c20Tmpl{id: "live-binary-lhs", src: "[$X + " + bump + ", $X]", needAssignable: true})
+	add(c20Tmpl{id: "live-list-lit", src: "[$X, " + bump + ", $X]", needAssignable: true})
+	add(c20Tmpl{id: "live-go-arg", src: "g2($X, " + bump + ")", needAssignable: true})
+	add(c20Tmpl{id: "live-script-arg", pre: "f2 = func(a, b){ return [a, b] }", src: "f2($X, " + bump + ")", needAssignable: true})
+	add(c20Tmpl{id: "live-return", src: "func(){\ndefer func(){ $X += $X }()\nreturn $X\n}()", needAssignable: true})
+	add(c20Tmpl{id: "live-implicit-result", src: "func(){\ndefer func(){ $X += $X }()\n$X\n}()", needAssignable: true})
+
+	// `&name`: the place is a variable in the reference and in the variant alike (the documented
+	// exclusion of &$X concerns holes that designate DIFFERENT kinds of storage)
+	add(c20Tmpl{id: "addr-of-name", src: "p = &$X\n*p = $X + $X\n[$X, *p]", nameOnly: true})
+	add(c20Tmpl{id: "addr-writeback", src: "gset(&$X)\n$X", nameOnly: true})
+
+	// the classes awaiting a repair of /repo (see the c20PendingFix constants)
+	pending := map[string]bool{}
+	pendingKind := func(kind string, ids ...string) {
+		for i := range ts {
+			for _, id := range ids {
+				if ts[i].id == id || (strings.HasSuffix(id, "*") && strings.HasPrefix(ts[i].id, strings.TrimSuffix(id, "*"))) {
+					m := map[string]bool{kind: true}
+					for k := range ts[i].skip {
+						m[k] = true
+					}
+					ts[i].skip = m
+				}
+			}
+		}
+	}
+	if c20PendingFix_addressableBinding {
+		pending["addr-of-name"] = true
+	}
+	if c20PendingFix_liveOperand {
+		pending["live-binary-lhs"], pending["live-go-arg"] = true, true
+	}
+	if c20PendingFix_implicitResult {
+		pending["live-implicit-result"] = true
+	}
+	if c20PendingFix_addrWriteback {
+		pending["addr-writeback"] = true
+	}
+	if c20PendingFix_arraySlice {
+		pendingKind("array", "slice-of-*", "slice-store")
+	}
+	if c20PendingFix_boxedPointerEqual {
+		pendingKind("ptrint", "in-lhs-nobool", "switch-subject-nobool", "switch-case-nobool")
+	}
+	kept := ts[:0]
+	for _, t := range ts {
+		if !pending[t.id] {
+			kept = append(kept, t)
+		}
+	}
+	ts = kept
+
+	// phase typed: the positions that show the value, its dynamic type, its method set or its identity
+	for _, id := range []string{"read", "core-typeOf", "arg-go-iface", "arg-go-show", "arg-sfixed", "lit-list", "store-key-map", "map-key-type",
+		"add-both", "eq-both", "len", "index-of-0", "forin-1", "call-0", "call-1", "call-spread", "go-callee", "defer-callee", "deref-read", "member-read-A", "method-value-recv", "method-ptr-recv",
+		"throw", "chan-send-val", "switch-subject-nobool", "arg-go-int", "arg-go-str", "arg-go-error", "arg-go-stringer", "arg-go-reader",
+		"arg-go-color", "arg-go-dur", "arg-go-temp", "arg-go-flag", "method-hex", "method-string", "method-error", "method-double",
+		"method-kelvin", "method-word", "method-value", "index-key-tmap-color", "lit-tslice-color", "store-val-colorfield"} {
+		for i := range ts {
+			if ts[i].id == id {
+				ts[i].typeSens = true
+			}
+		}
+	}
 	return ts
 }
 
@@ -565,7 +988,20 @@ var c20Hex = regexp.MustCompile(`0x[0-9a-fA-F]+`)
 func c20NoAddr(s string) string { return c20Hex.ReplaceAllString(s, "0xADDR") }
 
 // operand kinds whose element store re-binds the container instead of mutating it
-var c20Rebinds = map[string]bool{"str": true, "strnum": true, "elist": true, "nilmap": true, "nilslice": true} // a store makes a new container and re-binds it
+var c20Rebinds = map[string]bool{"str": true, "strnum": true, "elist": true, "nilmap": true, "nilslice": true, "ncolor": true} // a store makes a new container and re-binds it
+
+var c20TypedAddressable = map[string]bool{"tyelem": true, "tyfield": true, "tyderef": true, "tyelemvar": true}
+
+func c20MutatesInPlace(id string) bool {
+	return id == "method-ptr-recv" || id == "slice-store" || strings.HasPrefix(id, "elem-store-")
+}
+
+var c20PtrKinds = map[string]bool{"ptrint": true, "pstruct": true, "errp": true, "reader": true}
+var c20IntKinds = map[string]bool{"int": true, "zero": true, "big": true}
+var c20IntKeeping = map[string]bool{"inc": true, "dec": true, "add-assign": true, "sub-assign": true, "mul-assign": true, "or-assign": true, "and-assign": true, "assign": true}
+
+// operand kinds for which `x += x` yields a value of x's own type
+var c20SelfAddKeepsType = map[string]bool{"int": true, "zero": true, "big": true, "float": true, "str": true, "strnum": true, "list": true, "elist": true, "tslice": true, "tstrs": true}
 
 // c20Render renders a result with its dynamic types; reference-like results are
 // additionally compared by identity with the operand objects.
@@ -846,8 +1282,53 @@ func (g *c20Engine) chainOK(t *c20Tmpl, val *c20Val, chain []int) (bool, string)
 			return false, "typed-container-of-other-type"
 		}
 	}
+	for _, ai := range chain {
+		if g.atoms[ai].noPtr && c20PtrKinds[val.kind] {
+			return false, "for-in-variable-of-pointer"
+		}
+	}
 	if (t.needAssignable || (t.strNeedsAssignable && c20Rebinds[val.kind])) && !last.assignable {
 		return false, "store-needs-assignable-hole"
+	}
+	if t.nameOnly {
+		i := len(chain) - 1
+		for i >= 0 && g.atoms[chain[i]].name == "paren" {
+			i--
+		}
+		if i >= 0 && !g.atoms[chain[i]].isName {
+			// &$X of anything but a (parenthesised) name: the address depends on the kind of storage by definition
+			return false, "address-of-non-name"
+		}
+	}
+	if (val.kind == "struct" || val.kind == "array" || (val.kind == "ncolor" && t.id != "method-ptr-recv")) && c20MutatesInPlace(t.id) {
+		for i, ai := range chain {
+			if !c20TypedAddressable[g.atoms[ai].name] {
+				continue
+			}
+			if i == len(chain)-1 {
+				// a struct / array VALUE is mutated in place exactly when its storage is addressable (Go itself):
+				// like field stores into struct values, not a matter of provenance (a named string is
+				// rebuilt and converted back by the typed place, see below)
+				return false, "in-place-mutation-of-value-in-addressable-storage"
+			}
+			if c20PendingFix_addressableBinding {
+				return false, "pending-fix:addressable-binding"
+			}
+		}
+	}
+	if last.typedPlace && val.kind == "ncolor" && (t.strNeedsAssignable || t.needAssignable) {
+		// the store rebuilds a plain string and re-binds it: the typed place converts it back to the named type
+		return false, "non-type-keeping-store-into-typed-place"
+	}
+	if last.typedPlace && last.only == nil {
+		// the hole is a typed place: a store converts to the place's type (the typed container's
+		// rule, C10), so only stores that keep the operand's type are comparable with a variable
+		if t.effectOnly && !(c20IntKinds[val.kind] && c20IntKeeping[t.id]) && !(t.id == "add-assign-str" && (val.kind == "str" || val.kind == "strnum")) {
+			return false, "non-type-keeping-store-into-typed-place"
+		}
+		if strings.HasPrefix(t.id, "live-") && !c20SelfAddKeepsType[val.kind] {
+			return false, "non-type-keeping-store-into-typed-place"
+		}
 	}
 	if last.only != nil && last.assignable {
 		// the hole is a typed string place: what a store of a non-string does there is the
@@ -869,6 +1350,10 @@ func (g *c20Engine) runCase(c *wk.Case, t *c20Tmpl, val *c20Val, chains [][]int)
 	}
 	if t.skip[val.kind] {
 		c.Excluded("template-kind:" + t.id + ":" + val.kind)
+		return
+	}
+	if t.kinds != nil && !t.kinds[val.kind] {
+		c.Excluded("position-about-other-kinds")
 		return
 	}
 	var yval *c20Val
@@ -972,11 +1457,39 @@ func init() {
 	g := &c20Engine{vals: c20MakeVals(), atoms: c20MakeAtoms(), tmpls: c20MakeTmpls()}
 	nT, nV, nA := len(g.tmpls), len(g.vals), len(g.atoms)
 	atomIdx := map[string]int{}
-	var assignable []int
+	var assignable, general []int
 	for i, a := range g.atoms {
 		atomIdx[a.name] = i
+		if a.typedOnly {
+			continue
+		}
+		general = append(general, i)
 		if a.assignable {
 			assignable = append(assignable, i)
+		}
+	}
+	nA = len(general)
+	// phase typed: every typed addressable location x every binding hop (x an optional third hop)
+	var sensT []int
+	for i, t := range g.tmpls {
+		if t.typeSens {
+			sensT = append(sensT, i)
+		}
+	}
+	var typedChains [][]int
+	for _, src := range []string{"tyelem", "tyfield", "tyderef"} {
+		for _, hop := range []string{"letvar", "varvar", "mletvar", "sparam", "sparam5", "scall", "retname", "closure", "forinvar"} {
+			typedChains = append(typedChains, []int{atomIdx[src], atomIdx[hop]})
+		}
+	}
+	for _, hop := range []string{"mletvar", "sparam5", "retname", "closure", "forinvar"} {
+		typedChains = append(typedChains, []int{atomIdx[hop]})
+	}
+	// an interface{}-boxed, NON-addressable source (Go result, interface{} field of a struct value)
+	// bound to a name without passing through `=`
+	for _, src := range []string{"gocall", "field"} {
+		for _, hop := range []string{"varvar", "sparam", "sparam5", "closure"} {
+			typedChains = append(typedChains, []int{atomIdx[src], atomIdx[hop]})
 		}
 	}
 	tmplIdx := map[string]int{}
@@ -988,18 +1501,21 @@ func init() {
 		Plan: func(tier string) fw.Plan {
 			return fw.Plan{
 				Level: "exploration",
-				Rule: fmt.Sprintf("metamorphic: %d operation templates x %d operand values x provenance chains over %d atoms; reference = plain variable. "+
-					"phase fixed: the difference classes seen on the pinned tree; phase pairs: arguments bound by spreading a list (f(l...), f(0, l...), under defer and go, into fixed-arity script functions) against the same arguments written out (f(l[0], l[1])), with callees that overwrite the list, keep a closure, assign their parameter or apply kind-sensitive operators (complete list); phase len1: EVERY template x value x atom (complete); "+
+				Rule: fmt.Sprintf("metamorphic: %d operation templates x %d operand values x provenance chains over %d atoms (+%d binding hops used by phase typed only); reference = plain variable. "+
+					"operand kinds include named basic types with methods, error / Stringer / io.Reader implementations and a Go array; atoms include typed addressable Go locations built around ANY operand ([]T element, *struct{F T} field, *T target, map[string]T entry); templates include Go parameters, typed literals and typed places of non-empty interface types and of named types, method calls, typed map lookups, and read-then-store-in-one-expression (live-*) cases; type-specific positions are instantiated with the kinds they are about plus controls. "+
+					"phase fixed: the difference classes seen on the pinned tree; phase typed: the type-/identity-revealing templates x every value x (typed location x binding hop: =, var, multi-assignment, parameter, 5th parameter, return, returned name, closure, for-in variable; Go result / interface{} field x var, parameter, 5th parameter, closure) (complete); phase pairs: arguments bound by spreading a list (f(l...), f(0, l...), under defer and go, into fixed-arity script functions) against the same arguments written out (f(l[0], l[1])), with callees that overwrite the list, keep a closure, assign their parameter or apply kind-sensitive operators (complete list); phase len1: EVERY template x value x atom (complete); "+
 					"phase deep: quick = 8 PRNG chains of length 2..3 per (template,value), thorough = every chain of length 2 plus 80 PRNG chains of length 3. "+
-					"Each instantiation runs in a fresh environment with fresh operand objects. An evaluation is non-trivial when the reference or the variant succeeded; distinct = distinct (template, value, source).", nT, nV, nA),
+					"Each instantiation runs in a fresh environment with fresh operand objects. An evaluation is non-trivial when the reference or the variant succeeded; distinct = distinct (template, value, source).", nT, nV, nA, len(g.atoms)-nA),
 				Assumptions: []string{
 					"error texts are not compared (statement: same error-or-success), except for throw",
 					"pointers/channels/functions are compared by identity with the operand object and by their effects, never by printed address",
-					"excluded: `a, b = <index expr>`, &$X, the value of $X++ / $X op= e, string/appending stores and struct-value field stores through non-assignable holes",
+					"excluded: `a, b = <index expr>` (also parenthesised), &$X of anything but a name, the value of $X++ / $X op= e, string/appending stores and struct-value field stores through non-assignable holes, in-place mutation of struct/array values held in addressable typed locations, non-type-keeping stores into typed places, the for-in loop variable of a pointer operand",
+					"classes known to violate the statement on the unchanged tree are not generated while their c20PendingFix_* constant is true: addressable binding (&name, in-place mutation of a name bound from a typed location), live left operand / Go-call argument, implicit function result, slicing a non-addressable array, switch/in with a boxed pointer, values boxed in non-empty interface types, syntactic &name write-back",
 				},
 				Phases: []fw.Phase{
 					{Name: "fixed", Cases: len(c20FixedCases), Chunk: len(c20FixedCases), Exhaust: true, TimeoutS: 300},
 					{Name: "len1", Cases: nT * nV, Chunk: 160, Exhaust: true, TimeoutS: 900},
+					{Name: "typed", Cases: len(sensT) * nV, Chunk: 160, Exhaust: true, TimeoutS: 900},
 					{Name: "pairs", Cases: len(c20Pairs()), Chunk: 64, Exhaust: true, TimeoutS: 600},
 					{Name: "deep", Cases: nT * nV, Chunk: map[string]int{"quick": 160, "thorough": 40}[tier], TimeoutS: 1800},
 				},
@@ -1020,9 +1536,11 @@ func init() {
 				t, v := &g.tmpls[c.Index/nV], &g.vals[c.Index%nV]
 				chains := make([][]int, nA)
 				for i := range chains {
-					chains[i] = []int{i}
+					chains[i] = []int{general[i]}
 				}
 				g.runCase(c, t, v, chains)
+			case "typed":
+				g.runCase(c, &g.tmpls[sensT[c.Index/nV]], &g.vals[c.Index%nV], typedChains)
 			case "deep":
 				t, v := &g.tmpls[c.Index/nV], &g.vals[c.Index%nV]
 				var chains [][]int
@@ -1030,14 +1548,14 @@ func init() {
 					if last && (t.needAssignable || (t.strNeedsAssignable && c20Rebinds[v.kind])) {
 						return assignable[c.Rng.Intn(len(assignable))]
 					}
-					return c.Rng.Intn(nA)
+					return general[c.Rng.Intn(nA)]
 				}
 				nRand := 8
 				if c.Tier == "thorough" {
 					nRand = 80
 					for i := 0; i < nA; i++ {
 						for j := 0; j < nA; j++ {
-							chains = append(chains, []int{i, j})
+							chains = append(chains, []int{general[i], general[j]})
 						}
 					}
 				}
